@@ -25,8 +25,12 @@ import Upa.Impl.Fault
   have the strong guarantee: when they throw the string is unchanged.  `util::checked_diff` of
   url.h:2843 sits AFTER the `replace` and the `fill` of `replace_part`; it throws only when
   `|len - l| > PTRDIFF_MAX`, impossible for the sizes of two live strings, and is not marked.
-  There is no `try`/`catch` in the library: a failure only aborts, so the control flow up to the
-  failing primitive does not depend on the schedule.
+  There is no `try`/`catch` in the code modelled HERE (the setters, `url_setter`, `url_search_params::update`):
+  a failure only aborts, so the control flow up to the failing primitive does not depend on the
+  schedule.  The one handler of the library is in `url::do_parse` (url.h:1438-1464, since the repairs
+  of F13 / F15 and commit 46fa9a3: `catch (...) { reset_record(); throw; }` around `new_url()`,
+  `url_parse` and `parse_search_params()`); it is modelled in `Impl/ParseRepExc.lean` (`doParseExc`),
+  properties in `Props/C20c.lean`.
 
   A computation `X α` is therefore given by the list `pts` of the representations the url object
   has at the 1st, 2nd, ... throwing primitive the call passes (each BEFORE that primitive takes
